@@ -225,3 +225,16 @@ pub fn value_or_zero(f: &Flat, p: &str) -> Option<f64> {
         None => None,
     }
 }
+
+/// absolute slack for numbers printed in a per-m2 report when two *different evaluations* are compared:
+/// half a unit of the last printed digit plus the rounding of hash-ordered accumulation under cancellation
+pub fn report_slack(rf: &RefOut) -> f64 {
+    let smax = rf.iter().filter(|(p, _)| p.starts_with("balance_m2.")).map(|(_, v)| v.s).filter(|s| s.is_finite()).fold(0.0f64, f64::max);
+    0.011 + 3e-6 * smax
+}
+
+/// extra absolute band for a JSON path (leading '.' stripped) from the reference scales
+pub fn json_band(rf: &RefOut, path: &str) -> f64 {
+    let p = path.trim_start_matches('.');
+    rf.get(p).map(|v| if v.s.is_finite() { 3e-6 * v.s } else { f64::INFINITY }).unwrap_or(0.0)
+}
